@@ -57,6 +57,7 @@ def cellOf : Val → Text
   | .str t => t
   | .int i => strInt i
   | .bytes b => b          -- not reached for the configured output columns
+  | .dec _ => []           -- str(Decimal): not modelled (no packaged column is decimal)
   | .dt d =>
     (Cardutil.Digits.toDigits 10 4 d.year).map (48 + ·) ++ [45] ++ pad2 d.month ++ [45] ++ pad2 d.day ++ [32] ++
       pad2 d.hour ++ [58] ++ pad2 d.minute ++ [58] ++ pad2 d.second
